@@ -2096,6 +2096,24 @@ def flag_delta(t, depth=0):
     return t, set()
 
 
+def merge_const_segments(segs):
+    """adjacent constant segments as one byte string:  b"ab", [0x00]  ==  b"ab\0";  other segments unchanged"""
+    out = []
+    for s in segs:
+        b = None
+        if isinstance(s, tuple) and len(s) == 2 and s[0] == "const" and isinstance(s[1], (bytes, bytearray)):
+            b = bytes(s[1])
+        elif isinstance(s, tuple) and len(s) == 2 and s[0] == "array" and s[1] and all(isinstance(e, tuple) and len(e) == 2 and e[0] == "const" and isinstance(e[1], int) and 0 <= e[1] < 256 for e in s[1]):
+            b = bytes(e[1] for e in s[1])
+        if b is not None and out and out[-1][0] == "bytes":
+            out[-1] = ("bytes", out[-1][1] + b)
+        elif b is not None:
+            out.append(("bytes", b))
+        else:
+            out.append(s)
+    return out
+
+
 def byte_segments(t):
     """Ordered segments of a byte-sequence-building value, whichever way it is built:
     `a.into_iter().chain(b).chain(c).collect()`  or  `let mut v = Vec::new(); v.push(x); v.extend(b); v` (functional
